@@ -148,7 +148,10 @@ CHECKS = {
         "level_note": 'Trusted: generator ground truth (relevance by construction, UTXO universe), fake OutputFetcher; the harness re-issues the tx-processor and block-processor loop bodies sequentially (no goroutine races in this engine).',
         "runs": [
             {"pkg": "internal/spynode", "test": "TestVerif_C03"},
+            {"pkg": "internal/spynode", "test": "TestVerif_C03L1"},
+            {"pkg": "internal/spynode", "test": "TestVerif_C03L1", "race": True, "tiers": ["thorough"]},
         ],
+        "race_attrib": [r"^github\.com/tokenized/spynode/internal/(handlers|state|storage|spynode)\."],
     },
     "C04": {
         "level": "exploration",
